@@ -343,6 +343,49 @@ def empty_rule(ctx, P):
         ctx.check(r, paths.guarded(f, c, nonempty), key(f, "aligner-needs-words"), f.where(c), "state_align_search_init is reached with an alignment that may hold no word (hypothesis of null transitions / fillers only, or no audio yet): it allocates zero HMMs and the first step enters element 0")
 
 
+# -------------------------------------------------------------------------------- alignment text: counting and building passes
+def align_text_rule(ctx, P):
+    r = ctx.rule("TWIN.align-text", "decoder_set_align_text sizes the grammar from a count taken by the same tokeniser call (same delimiters) that the building pass uses, both passes advance the counter once per word from zero, and the transitions go from state k to k+1 of that counter", floor=5)
+    f = P.fn("decoder_set_align_text", "decoder.c")
+    ctx.touch(f)
+    ini = f.calls("fsg_model_init")
+    tr = f.calls("fsg_model_trans_add")
+    if len(ini) != 1 or not tr:
+        raise AnalysisIncomplete("anchor vanished: fsg_model_init / fsg_model_trans_add in decoder_set_align_text")
+    m = re.match(r"^\((\w+) \+ 1\)$|^\(1 \+ (\w+)\)$", f.canon(f.args(ini[0])[3], subst=False))
+    if not ctx.check(r, m is not None, key(f, "state-count"), f.where(ini[0]), "the grammar is created with `%s` states, not word count + 1" % f.canon(f.args(ini[0])[3], subst=False)):
+        return
+    v = m.group(1) or m.group(2)
+    loops = []
+    for lp in f.find("While") + f.find("For"):
+        incs = [i for i in f.walk(lp) if f.k(i) == "Un" and f.nodes[i]["op"] in ("pre++", "post++") and f.canon(f.ch(i)[0], subst=False) == v]
+        incs += [i for i in f.walk(lp) if f.k(i) == "CompoundAssign" and f.nodes[i]["op"] == "+=" and f.canon(f.ch(i)[0], subst=False) == v]
+        if incs:
+            cnd = f.ch(lp)[0] if f.k(lp) == "While" else f.ch(lp)[1]
+            loops.append((lp, cnd, incs))
+    count = [l for l in loops if paths.may_reach(f, l[1], lambda e: e == ini[0]) and not any(t in set(f.walk(l[0])) for t in tr)]
+    build = [l for l in loops if any(t in set(f.walk(l[0])) for t in tr)]
+    ok = len(count) == 1 and len(build) == 1
+    ctx.check(r, ok, key(f, "two-passes"), f.where(ini[0]), "expected one counting loop before fsg_model_init and one building loop with the transitions, both advancing `%s` (found %d / %d)" % (v, len(count), len(build)))
+    if not ok:
+        return
+    c1 = f.canon(count[0][1], subst=False)
+    c2 = f.canon(build[0][1], subst=False)
+    ctx.check(r, c1 == c2 and "nextword(" in c1, key(f, "same-tokeniser"), f.where(count[0][1]), "the counting pass splits the text with `%s` but the building pass with `%s`: a text on which they disagree gets fewer states than transitions" % (c1[:70], c2[:70]))
+    for nm, (lp, cnd, incs) in (("count", count[0]), ("build", build[0])):
+        body = f.ch(lp)[1] if f.k(lp) == "While" else f.ch(lp)[-1]
+        once = len(incs) == 1 and not [x for x in f.walk(lp) if f.k(x) == "Continue"]
+        ctx.check(r, once, key(f, "%s-once" % nm), f.where(lp), "the %s pass does not advance `%s` exactly once per word" % (nm, v))
+        zero = [s_ for s_ in paths.stores(f) if s_["path"] == v and s_["op"] == "=" and s_["rhs"] is not None and f.constval(s_["rhs"]) == 0 and paths.always_before(f, cnd, lambda e, n_=s_["node"]: e == n_)]
+        others = [s_ for s_ in paths.stores(f) if s_["path"] == v and s_["op"] == "=" and (s_["rhs"] is None or f.constval(s_["rhs"]) != 0)]
+        ctx.check(r, bool(zero) and not others, key(f, "%s-from-zero" % nm), f.where(lp), "`%s` does not start from zero in the %s pass" % (v, nm))
+    for t in tr:
+        a = [f.canon(x, subst=False) for x in f.args(t)]
+        ctx.check(r, a[1] == v and a[2] in ("(%s + 1)" % v, "(1 + %s)" % v), key(f, "chain"), f.where(t), "transition goes from `%s` to `%s`, not from word k to k+1" % (a[1], a[2]))
+    fin = [s_ for s_ in paths.stores(f) if s_["path"] == "fsg->final_state"]
+    ctx.check(r, len(fin) == 1 and f.canon(fin[0]["rhs"], subst=False) == v, key(f, "final-state"), f.where(fin[0]["node"]) if fin else f.where(f.root), "the final state is not the number of words")
+
+
 # -------------------------------------------------------------------------------- exits
 API_ROOTS = ("decoder_start_utt", "decoder_process_int16", "decoder_process_float32", "decoder_end_utt", "decoder_hyp", "decoder_prob",
              "decoder_seg_iter", "seg_iter_next", "seg_iter_free", "seg_iter_word", "seg_iter_frames", "seg_iter_prob", "decoder_alignment",
@@ -408,11 +451,12 @@ def run(ctx):
     null_rule(ctx, P)
     api = [f for f in P.repo_functions() if unit_of(f) in API_UNITS]
     c10.consume_rule(ctx, P, api)
-    c17.unwind_rule(ctx, P, api, floor=60, only_readers=False, extra_allocs=("copy_header_value", "string_join", "s3file_copy_nextword", "decoder_lookup_word", "fopen"), extra_frees=("fclose", "*_free"), extra_owned=("alignment_init", "fsg_model_init", "jsgf_grammar_new", "lattice_init", "fsg_model_read_s3file", "fsg_model_readfile", "jsgf_parse_string", "jsgf_parse_file", "jsgf_build_fsg", "hash_table_new"))
+    c17.unwind_rule(ctx, P, api, floor=60, only_readers=False, extra_allocs=("copy_header_value", "string_join", "s3file_copy_nextword", "decoder_lookup_word", "fopen"), extra_frees=("fclose", "*_free"), extra_owned=("alignment_init", "fsg_model_init", "jsgf_grammar_new", "lattice_init", "fsg_model_read_s3file", "fsg_model_readfile", "jsgf_parse_string", "jsgf_parse_file", "jsgf_build_fsg", "hash_table_new", "*ctor"))
     receiver_rule(ctx, P)
     iter_rule(ctx, P, [f for f in P.repo_functions() if unit_of(f) not in GENERATED])
     allocsz_rule(ctx, P)
     len_rule(ctx, P)
     empty_rule(ctx, P)
+    align_text_rule(ctx, P)
     exit_rule(ctx, P)
     c14.run(ctx)
